@@ -190,17 +190,17 @@ E('C17', 'calc-output-ifstmt', S2, "        return self.sdata['input'] if self._
 # ----------------------------------------------------------------------------- C14
 V('C14', 'gate-weakened', SIM, "return self._simtask is not None and self._error is None",
   "return self._simtask is not None", 'R14.1')
-V('C14', 'gate-after-value', BLK, """        if not simulator.get_circuit().is_ready():
+V('C14', 'gate-after-value', BLK, """        if not self._dest.circuit.is_ready():
             raise EdzedInvalidState("The circuit simulation is shutting down or not running")
         if value is not UNDEF:
             data['value'] = value
 """, """        if value is not UNDEF:
             data['value'] = value
             return self._dest.event(self._etype, **data)
-        if not simulator.get_circuit().is_ready():
+        if not self._dest.circuit.is_ready():
             raise EdzedInvalidState("The circuit simulation is shutting down or not running")
 """, 'R14.1')
-V('C14', 'gate-removed', BLK, """        if not simulator.get_circuit().is_ready():
+V('C14', 'gate-removed', BLK, """        if not self._dest.circuit.is_ready():
             raise EdzedInvalidState("The circuit simulation is shutting down or not running")
         if value is not UNDEF:""", """        if value is not UNDEF:""", 'R14.1')
 V('C14', 'prefix-one-branch', BLK, """            if not source.startswith("_ext_"):
@@ -224,9 +224,9 @@ V('C14', 'drops-item', BLK, "        return self._dest.event(self._etype, **data
   "        data.pop('trigger', None)\n        return self._dest.event(self._etype, **data)\n\n    def __str__(self):\n        return f\"<{type(self).__name__} dest='{self._dest.name}'", 'R14.2b')
 V('C14', 'returns-none', BLK, "        return self._dest.event(self._etype, **data)\n\n    def __str__(self):\n        return f\"<{type(self).__name__} dest='{self._dest.name}'",
   "        self._dest.event(self._etype, **data)\n\n    def __str__(self):\n        return f\"<{type(self).__name__} dest='{self._dest.name}'", 'R14.1')
-E('C14', 'gate-local', BLK, """        if not simulator.get_circuit().is_ready():
+E('C14', 'gate-local', BLK, """        if not self._dest.circuit.is_ready():
             raise EdzedInvalidState("The circuit simulation is shutting down or not running")
-        if value is not UNDEF:""", """        if simulator.get_circuit().is_ready():
+        if value is not UNDEF:""", """        if self._dest.circuit.is_ready():
             pass
         else:
             raise EdzedInvalidState("The circuit simulation is shutting down or not running")
